@@ -6,7 +6,7 @@ K1 = "K1-cipher-mode-byte-unauthenticated"
 
 
 def run(ck):
-    ck.prove(["Properties_C12", "SrcRun5"], THEOREMS)   # SrcRun5: the translated whole-file runs (a stale translation concerns this property)
+    ck.prove(["Properties_C12", "Properties_Src2", "SrcRun5"], THEOREMS + ["SRC_verify"])   # SrcRun5: the translated whole-file runs (a stale translation concerns this property)
     exe = small_driver(ck)
     env = small_env(ck)
     big = ck.tier == "thorough"
@@ -18,6 +18,10 @@ def run(ck):
         items.append((c.T, c.key, f, {"case": c, "orig": f, "valid": True}))
         k2 = bytearray(c.key); k2[r.randrange(16)] ^= 1 << r.randrange(8)
         items.append((c.T, bytes(k2), f, {"case": c, "orig": f, "wrongkey": True}))
+        # the thread count is not stored in the file: the same authentic file presented to runs with OTHER thread counts (the IV area
+        # they skip differs, decrypted bytes are then not the plaintext, but both entry points must still give the same verdict)
+        for T2 in sorted(set([1, 2, 4, 16, max(1, c.T - 1), min(16, c.T + 1)]) - {c.T})[:4]:
+            items.append((T2, c.key, f, {"case": c, "orig": f, "otherT": True}))
     for T, key, f, cls in forged(r, 120 if big else 50):
         items.append((T, key, f, {"forged": cls}))
     res = run_inputs(ck, exe, env, items)
@@ -25,7 +29,7 @@ def run(ck):
     distinct, corr, last = set(), 0, None
     for x in res:
         meta = x["meta"]
-        cls = meta["forged"] if meta.get("forged") else "garbage" if meta.get("garbage") else "valid" if meta.get("valid") else "wrong-key" if meta.get("wrongkey") else meta["mut"].cls
+        cls = meta["forged"] if meta.get("forged") else "garbage" if meta.get("garbage") else "valid" if meta.get("valid") else "other-thread-count" if meta.get("otherT") else "wrong-key" if meta.get("wrongkey") else meta["mut"].cls
         ck.cov["evaluations"] += 1
         dist[cls] = dist.get(cls, 0) + 1
         distinct.add((cls, len(x["data"]), x["data"][:12]))
